@@ -50,7 +50,226 @@ macro_rules! big_cases {
     }};
 }
 
+// ---- class `const_ctor`: the const constructors driven at run time on locally derived fields (fadapt::constrt)
+#[cfg(feature = "const_ctor")]
+mod const_ctor {
+    use ark_ff::{Fp, MontBackend, MontConfig};
+    use std::marker::PhantomData;
+    #[derive(MontConfig)]
+    #[modulus = "18446744073709551557"]
+    #[generator = "2"]
+    pub struct K0;
+    #[derive(MontConfig)]
+    #[modulus = "2305843009213693951"]
+    #[generator = "3"]
+    pub struct K1;
+    #[derive(MontConfig)]
+    #[modulus = "18446744069414584321"]
+    #[generator = "7"]
+    pub struct K2;
+    #[derive(MontConfig)]
+    #[modulus = "170141183460469231731687303715884105727"]
+    #[generator = "3"]
+    pub struct K3;
+    #[derive(MontConfig)]
+    #[modulus = "199503444963337062058076740601198027329"]
+    #[generator = "7"]
+    pub struct K4;
+    #[derive(MontConfig)]
+    #[modulus = "6277101735386680763835789423207666416083908700390324961279"]
+    #[generator = "11"]
+    pub struct K5;
+    #[derive(MontConfig)]
+    #[modulus = "4555291100009952309680851833529510721931501339142417076177"]
+    #[generator = "3"]
+    pub struct K6;
+    #[derive(MontConfig)]
+    #[modulus = "115792089237316195423570985008687907853269984665640564039457584007908834671663"]
+    #[generator = "3"]
+    pub struct K7;
+    #[derive(MontConfig)]
+    #[modulus = "42773147590002652006097313766352796357802895297379253969922068875034022721827"]
+    #[generator = "2"]
+    pub struct K8;
+    #[derive(MontConfig)]
+    #[modulus = "39402006196394479212279040100143613805079739270465446667948293404245721771496870329047266088258938001861606973112319"]
+    #[generator = "19"]
+    pub struct K9;
+    #[derive(MontConfig)]
+    #[modulus = "32048270361986631651684903226973591633309124291791399598672672827198541759532250692337317943557063964615118482135717"]
+    #[generator = "2"]
+    pub struct K10;
+    #[derive(MontConfig)]
+    #[modulus = "6864797660130609714981900799081393217269435300143305409394463459185543183397656052122559640661454554977296311391480858037121987999716643812574028291115057151"]
+    #[generator = "3"]
+    pub struct K11;
+    #[derive(MontConfig)]
+    #[modulus = "15607574404979845937917304625365064124764384391529980546483844877222997344265551502073280314968488765988184181959992061658162094952240624496294395662048868694531100322534394721257671067411336082363692300163844635634469121835869847533765175908934031673"]
+    #[generator = "5"]
+    pub struct K12;
+
+    pub fn run() -> ! {
+        use monitor::*;
+        let args = Args::parse();
+        let t0 = std::time::Instant::now();
+        let cfgs: Vec<fadapt::Cfg> = vec![
+        fadapt::mk(PhantomData::<Fp<MontBackend<K0, 1>, 1>>, "probe/p64m59", false),
+        fadapt::mk(PhantomData::<Fp<MontBackend<K1, 1>, 1>>, "probe/m61", false),
+        fadapt::mk(PhantomData::<Fp<MontBackend<K2, 1>, 1>>, "probe/goldilocks", false),
+        fadapt::mk(PhantomData::<Fp<MontBackend<K3, 2>, 2>>, "probe/m127", false),
+        fadapt::mk(PhantomData::<Fp<MontBackend<K4, 2>, 2>>, "probe/r2_full", false),
+        fadapt::mk(PhantomData::<Fp<MontBackend<K5, 3>, 3>>, "probe/p192", false),
+        fadapt::mk(PhantomData::<Fp<MontBackend<K6, 3>, 3>>, "probe/r3_full", false),
+        fadapt::mk(PhantomData::<Fp<MontBackend<K7, 4>, 4>>, "probe/secp256k1", false),
+        fadapt::mk(PhantomData::<Fp<MontBackend<K8, 4>, 4>>, "probe/r4_m1", false),
+        fadapt::mk(PhantomData::<Fp<MontBackend<K9, 6>, 6>>, "probe/p384", false),
+        fadapt::mk(PhantomData::<Fp<MontBackend<K10, 6>, 6>>, "probe/r6_full", false),
+        fadapt::mk(PhantomData::<Fp<MontBackend<K11, 9>, 9>>, "probe/m521", false),
+        fadapt::mk(PhantomData::<Fp<MontBackend<K12, 13>, 13>>, "probe/r13_full", false),
+        ];
+        let items: Vec<Item> = cfgs
+            .into_iter()
+            .map(|c| {
+                let n = c.pf.n();
+                Item::new(format!("c20rt/{}", c.name), move |rep: &mut Report, rng: &mut Rng, args: &Args| {
+                    let fc = fadapt::constrt::FC::new(&c.name, "probe", c.pf.as_ref());
+                    for r in fadapt::constrt::required(n) {
+                        rep.require_here(r);
+                    }
+                    fadapt::constrt::run_field(&fc, rep, rng, args);
+                })
+            })
+            .collect();
+        let rep = run_items(&args, items);
+        finish(&args, "lit_probe/const_ctor", fadapt::constrt::RULE, rep, t0)
+    }
+}
+
+// ---- class `derive_small_subgroup`: derive attributes whose subgroup size base^power exceeds 2^32 / 2^64
+#[cfg(feature = "derive_small_subgroup")]
+mod derive_small_subgroup {
+    use ark_ff::{FftField, Field, Fp, MontBackend, MontConfig, PrimeField};
+    use ark_std::{One, Zero};
+    use oracle::UInt;
+
+    #[derive(MontConfig)]
+    #[modulus = "585779779369"]
+    #[generator = "38"]
+    #[small_subgroup_base = "3"]
+    #[small_subgroup_power = "21"]
+    pub struct S1;
+    #[derive(MontConfig)]
+    #[modulus = "9118249094292696600751"]
+    #[generator = "11"]
+    #[small_subgroup_base = "3"]
+    #[small_subgroup_power = "41"]
+    pub struct S2;
+    #[derive(MontConfig)]
+    #[modulus = "4246830940246582031251"]
+    #[generator = "3"]
+    #[small_subgroup_base = "5"]
+    #[small_subgroup_power = "28"]
+    pub struct S3;
+    // small power as a control
+    #[derive(MontConfig)]
+    #[modulus = "585779779369"]
+    #[generator = "38"]
+    #[small_subgroup_base = "3"]
+    #[small_subgroup_power = "2"]
+    pub struct S4;
+
+    fn pw<F: Field>(x: F, e: &UInt) -> F {
+        x.pow(oracle::to_limbs(e, (e.bits() as usize).div_ceil(64).max(1)))
+    }
+
+    fn check<F: PrimeField + FftField>(name: &str, base: u32, power: u32) -> usize {
+        let mut bad = 0;
+        let mut fail = |m: String| {
+            println!("MISMATCH {name}: {m}");
+            bad += 1;
+        };
+        let p: UInt = F::MODULUS.into();
+        let pm1 = &p - UInt::one();
+        let s = F::TWO_ADICITY;
+        let two_s = oracle::pow2(s as usize);
+        if !(&pm1 % &two_s).is_zero() || ((&pm1 / &two_s) % UInt::from(2u8)).is_zero() {
+            fail(format!("TWO_ADICITY = {s} is not the 2-adic valuation of p-1"));
+        }
+        if F::TWO_ADIC_ROOT_OF_UNITY != pw(F::GENERATOR, &(&pm1 / &two_s)) {
+            fail("TWO_ADIC_ROOT_OF_UNITY != GENERATOR^((p-1)/2^s)".into());
+        }
+        if F::SMALL_SUBGROUP_BASE != Some(base) || F::SMALL_SUBGROUP_BASE_ADICITY != Some(power) {
+            fail(format!("SMALL_SUBGROUP_BASE/ADICITY = {:?}/{:?}, attributes say {base}/{power}", F::SMALL_SUBGROUP_BASE, F::SMALL_SUBGROUP_BASE_ADICITY));
+        }
+        let bk = UInt::from(base).pow(power);
+        let n = &two_s * &bk;
+        if !(&pm1 % &n).is_zero() {
+            fail("probe configuration error: 2^s * base^power does not divide p-1".into());
+            return bad;
+        }
+        let want = pw(F::GENERATOR, &(&pm1 / &n));
+        match F::LARGE_SUBGROUP_ROOT_OF_UNITY {
+            None => fail("LARGE_SUBGROUP_ROOT_OF_UNITY is None".into()),
+            Some(w) => {
+                if w != want {
+                    fail(format!("LARGE_SUBGROUP_ROOT_OF_UNITY = {w} but GENERATOR^((p-1)/(2^s*base^power)) = {want} (run-time arithmetic)"));
+                }
+                if !pw(w, &n).is_one() || pw(w, &(&n / UInt::from(2u8))).is_one() || pw(w, &(&n / UInt::from(base))).is_one() {
+                    fail("LARGE_SUBGROUP_ROOT_OF_UNITY does not have order exactly 2^s * base^power".into());
+                }
+            },
+        }
+        // get_root_of_unity for subgroup sizes that fit in u64
+        let mut sizes: Vec<u64> = vec![base as u64, 2 * base as u64, (base as u64).pow(2), 4 * (base as u64).pow(3)];
+        let mut big = 1u64;
+        let mut j = 0;
+        while j < power && big.checked_mul(base as u64).is_some() && big * (base as u64) < (1 << 62) {
+            big *= base as u64;
+            j += 1;
+        }
+        sizes.push(big);
+        sizes.push(big * 2);
+        for m in sizes {
+            let (mut ja, mut t) = (0, m);
+            while t % base as u64 == 0 {
+                t /= base as u64;
+                ja += 1;
+            }
+            let ta = t.trailing_zeros();
+            let valid = t == 1u64 << ta && ta <= s && ja <= power;
+            match (F::get_root_of_unity(m), valid) {
+                (Some(w), true) => {
+                    let mu = UInt::from(m);
+                    let mut ok = pw(w, &mu).is_one();
+                    if m % 2 == 0 {
+                        ok &= !pw(w, &(&mu / UInt::from(2u8))).is_one();
+                    }
+                    if m % base as u64 == 0 {
+                        ok &= !pw(w, &(&mu / UInt::from(base))).is_one();
+                    }
+                    if !ok {
+                        fail(format!("get_root_of_unity({m}) does not have order exactly {m}"));
+                    }
+                },
+                (None, true) => fail(format!("get_root_of_unity({m}) = None although the subgroup exists")),
+                (Some(_), false) => fail(format!("get_root_of_unity({m}) = Some although no such subgroup is declared")),
+                (None, false) => {},
+            }
+        }
+        bad
+    }
+
+    pub fn run() -> usize {
+        check::<Fp<MontBackend<S1, 1>, 1>>("p = 2^3*3^21*7+1, small subgroup 3^21 (> 2^32)", 3, 21)
+            + check::<Fp<MontBackend<S2, 2>, 2>>("p = 2*3^41*125+1, small subgroup 3^41 (> 2^64)", 3, 41)
+            + check::<Fp<MontBackend<S3, 2>, 2>>("p = 2*5^28*57+1, small subgroup 5^28 (> 2^64)", 5, 28)
+            + check::<Fp<MontBackend<S4, 1>, 1>>("p = 2^3*3^21*7+1, small subgroup 3^2 (control)", 3, 2)
+    }
+}
+
 fn main() {
+    #[cfg(feature = "const_ctor")]
+    const_ctor::run();
     #[allow(unused_mut)]
     let mut bad = 0;
     #[cfg(feature = "decimal")]
@@ -103,6 +322,10 @@ fn main() {
         bad += big_cases!(1; "0" => "0", "18446744073709551615" => "18446744073709551615", "0xff" => "255", "0o17" => "15", "0b101" => "5", "0010" => "10");
         bad += big_cases!(4; "0x10000000000000000" => "18446744073709551616", "115792089237316195423570985008687907853269984665640564039457584007913129639935" => "115792089237316195423570985008687907853269984665640564039457584007913129639935");
         bad += big_cases!(13; "0x1000000000000000000000000000000000000000000000000000000000000000000000000000000000000000000000000000000000000000000000000000000000000000000000000000000000000000000000000000000000000000000000000" => "1552518092300708935148979488462502555256886017116696611139052038026050952686376886330878408828646477950487730697131073206171580044114814391444287275041181139204454976020849905550265285631598444825262999193716468750892846853816057856", "28638903918474961204418783933674838490721739172170652529441449702311064005352904159345284265824628375429359509218999720074396860757073376700445026041564579620512874307979212102266801261478978776245040008231745247475930553606737583615358787106474295295" => "28638903918474961204418783933674838490721739172170652529441449702311064005352904159345284265824628375429359509218999720074396860757073376700445026041564579620512874307979212102266801261478978776245040008231745247475930553606737583615358787106474295295");
+    }
+    #[cfg(feature = "derive_small_subgroup")]
+    {
+        bad += derive_small_subgroup::run();
     }
     std::process::exit(if bad == 0 { 0 } else { 1 });
 }
